@@ -53,6 +53,12 @@ def go_build():
                 errs += "go build %s failed:\n%s\n" % (name, out)
     return errs
 
+def go_build_race():
+    """the race-detector build of the harness (C08, C10); returns error text or ''"""
+    with Lock(os.path.join(GO, ".lock")):
+        rc, out = sh(["go", "build", "-race", "-tags", "verif", "-o", "bin/impl_race", "./cmd/impl"], cwd=GO, env=GOENV, timeout=1200)
+    return "" if rc == 0 else "go build -race failed:\n" + out
+
 def run_tool(name, args, input=None, timeout=1800):
     return sh([os.path.join(GO, "bin", name)] + args, cwd=GO, env=GOENV, input=input, timeout=timeout)
 
